@@ -15,3 +15,7 @@ CLAIMED["C07"] = {"technique": _TECH,
 CLAIMED["C11"] = {"technique": _TECH,
     "text": "witness_message equals a spec transcribed from the BIP143 text, byte for byte, for every input list, index, amount, scriptCode, outputs, version, locktime and each of the six sighash types (comprehensions over lists of unbounded length are map terms).",
     "note": _NOTE + " That the first 36 / last 4 bytes of a serialised input are its outpoint / sequence is contract C05.txin. 'Valid under consensus' is the meaning of the BIP, not an obligation."}
+
+CLAIMED["C15"] = {"technique": _TECH,
+    "text": "Proved for all inputs: block header (de)serialisation round trip; coinbase input (null outpoint, minimal BIP34 height push for every height < 2^32, 100-byte limit); coinbase transaction (exact default subsidy on both halving schedules, reward cap, BIP141 commitment output and reserved-value witness exactly when a root is given); merkle_root never raises, terminates and returns a hash for every list length. Bounded (not proved): merkle_root == spec merkle for every list length 1..300. Not covered: the block_deser/block_ser round trip (depends on tx_deser, C04/C05).",
+    "note": _NOTE + " Heights are restricted to [0, 2^32); an explicit block_reward of 0 is treated by the code as 'not given' and is excluded by the contract's precondition."}
